@@ -6,7 +6,7 @@
 import re
 
 FLAGGED = {
-    "C19": {"StallAfterCloseRead"},
+    "C19": {"StallAfterCloseRead", "StaleBufferReadAfterCloseRead", "KeyUpdateDeadlock"},
     "C20": {"NoFlowErrorAfterCloseRead", "EndMovedByLateRead"},
     "C32": {"SpuriousFinalSizeAfterLateRead"},
 }
